@@ -324,8 +324,12 @@ func c18Nep2(co *caseOut, in c18xInput) {
 			}
 		}
 	}
-	co.add("nep2", bucket, !bytes.Equal(p, q) && bucket != "different", in, e,
-		fmt.Sprintf("CNep2Frame %s %s %s", coqStrZ(priv.Address()), coqBytes(body), coqStrZ(e)))
+	// (the frame costs two double SHA-256 inside Coq: one case in three is compared with the model, every case with the oracle)
+	term := "CBigEnc 0 []"
+	if in.Seed%3 == 0 || in.Mode&1 == 1 {
+		term = fmt.Sprintf("CNep2Frame %s %s %s", coqStrZ(priv.Address()), coqBytes(body), coqStrZ(e))
+	}
+	co.add("nep2", bucket, !bytes.Equal(p, q) && bucket != "different", in, e, term)
 }
 
 // the NEP-2 vectors of the repository (internal/keytestcases: key, passphrase, NEP-2 string as produced by the N3
@@ -543,7 +547,7 @@ func c18Nep2Generate(co *caseOut, r *rng, cf *commonFlags) {
 					continue
 				}
 				run([]byte(a.forms[i]), []byte(a.forms[j]), 0)
-				if r.chance(50) {
+				if r.chance(25) {
 					run([]byte("pre"+a.forms[i]+"post"), []byte("pre"+a.forms[j]+"post"), 0)
 				}
 			}
@@ -562,7 +566,7 @@ func c18Nep2Generate(co *caseOut, r *rng, cf *commonFlags) {
 		run(pq[0], pq[1], 0)
 	}
 	// generated pairs
-	for i := 0; i < n/3+20; i++ {
+	for i := 0; i < n/6+14; i++ {
 		how := pick(r, []int{0, 1, 1, 1, 2, 2, 2, 3})
 		p, q := c18GenPassPair(r, how)
 		run(p, q, 0)
@@ -581,7 +585,7 @@ func c18Nep2Generate(co *caseOut, r *rng, cf *commonFlags) {
 	}
 	// envelopes: damaged in every field, of other lengths, look-alikes
 	cheap := keys.ScryptParams{N: 2, R: 1, P: 1}
-	for i := 0; i < n/6+10; i++ {
+	for i := 0; i < n/10+10; i++ {
 		e, _ := keys.NEP2Encrypt(c18Nep2Key(r.next()), "p", cheap)
 		payload, _ := base58.CheckDecode(e)
 		var s string
@@ -628,7 +632,7 @@ func c18Nep2Generate(co *caseOut, r *rng, cf *commonFlags) {
 		}
 	}
 	// and into the kinds that are compared with the Coq model (which works on bytes: every one of these is None there)
-	for i := 0; i < n/8+10; i++ {
+	for i := 0; i < n/12+6; i++ {
 		b := r.bytes(1 + r.intn(30))
 		la := func(s string) string { return hx([]byte(c18LookAlike(r, s))) }
 		c18xRun(co, "b58_dec", c18xInput{Raw: la(mrbase58.Encode(b))})
